@@ -1,12 +1,104 @@
 package main
 
 import (
+	"flag"
 	"fmt"
-	"golang.org/x/tools/go/packages"
+	"os"
+	"path/filepath"
+	"runtime"
+	"strings"
+	"time"
 )
 
 func main() {
-	cfg := &packages.Config{Mode: packages.LoadAllSyntax, Dir: "/repo", BuildFlags: []string{"-tags=verif"}}
-	pkgs, err := packages.Load(cfg, "./homescript/lexer/...")
-	fmt.Println(len(pkgs), err)
+	if len(os.Args) < 2 {
+		fmt.Fprintln(os.Stderr, "usage: hvc check|list|dump ...")
+		os.Exit(2)
+	}
+	switch os.Args[1] {
+	case "check":
+		os.Exit(cmdCheck(os.Args[2:]))
+	case "overlay":
+		cmdOverlay(os.Args[2:])
+	default:
+		fmt.Fprintln(os.Stderr, "unknown command", os.Args[1])
+		os.Exit(2)
+	}
+}
+
+func cmdOverlay(args []string) {
+	res, err := buildOverlay(args[0])
+	if err != nil {
+		fmt.Println("error:", err)
+		os.Exit(1)
+	}
+	for f, b := range res.Files {
+		fmt.Printf("==== %s\n%s\n", f, b)
+	}
+	for _, p := range res.Problems {
+		fmt.Println("PROBLEM:", p)
+	}
+}
+
+func cmdCheck(args []string) int {
+	fs := flag.NewFlagSet("check", flag.ExitOnError)
+	prop := fs.String("property", "all", "property id")
+	tier := fs.String("tier", envOr("VERIF_TIER", "quick"), "quick|thorough")
+	root := fs.String("root", "/repo", "repository root")
+	only := fs.String("func", "", "verify only functions whose name contains this")
+	dump := fs.String("dump", "", "directory to dump queries of failed obligations")
+	verbose := fs.Bool("v", false, "verbose")
+	evdir := fs.String("evidence", "/verif/evidence", "evidence directory")
+	noev := fs.Bool("noevidence", false, "do not write evidence")
+	fs.Parse(args)
+	start := time.Now()
+	p, err := loadProg(*root)
+	if err != nil {
+		fmt.Println("hvc: load error:", err)
+		return 2
+	}
+	p.computeEffects()
+	units := unitsFor(p, *prop)
+	var results []*UnitResult
+	var all []*Obligation
+	for _, fi := range units {
+		if *only != "" && !strings.Contains(fi.Name(), *only) {
+			continue
+		}
+		t0 := time.Now()
+		r := verifyUnit(p, fi)
+		r.GenTime = time.Since(t0).Seconds()
+		results = append(results, r)
+		all = append(all, r.Obligations...)
+	}
+	opts := SolveOpts{QuickT: 3, SlowT: 20, Workers: runtime.NumCPU()}
+	if *tier == "thorough" {
+		opts = SolveOpts{QuickT: 10, SlowT: 60, AllThree: true, Workers: runtime.NumCPU()}
+	}
+	solveAll(all, opts)
+	rep := buildReport(p, *prop, *tier, results, time.Since(start).Seconds())
+	if *verbose {
+		rep.printVerbose()
+	}
+	if *dump != "" {
+		os.MkdirAll(*dump, 0o755)
+		for _, o := range all {
+			if o.Status == "failed" || *verbose {
+				name := strings.NewReplacer("/", "_", " ", "_", "#", "-", ":", "-").Replace(o.Name)
+				if len(name) > 150 {
+					name = name[:150]
+				}
+				os.WriteFile(filepath.Join(*dump, name+".smt2"), []byte(o.Query), 0o644)
+			}
+		}
+	}
+	code := rep.finish(*evdir, !*noev && *only == "")
+	return code
+}
+
+func envOr(k, d string) string {
+	if v := os.Getenv(k); v != "" {
+		return v
+	}
+	return d
 }
